@@ -74,6 +74,16 @@ T = {
     "C07-F": ("C07", "simulate(): column selection moved before the missingness mask (columns in set order)", "include_missing=True and a comparison across processes with different PYTHONHASHSEED", ["C07"], False),
     "C09-E": ("C09", "XMLBIF writer strips trailing zeros also from the exponent of scientific notation", "an entry below 1e-4 with fractional mantissa and exponent ending in 0 (2.5e-10)", ["C09"], False),
     "C09-F": ("C09", "UAI reader float regex accepts an exponent only after a decimal point", "entries like 1e-05 or 3e-12 (one-digit mantissa)", ["C09"], False),
+    "C03-E": ("C03", "triangulate records fill-in edges without adding them to the scratch graph", "a chordless cycle of length >= 5 and a BP MAP query on part of the tree with strongly coupled potentials", ["C03", "C02", "C14"], False),
+    "C03-F": ("C03", "divide() aligns the divisor with a reshape instead of a transpose", "a sepset of >= 2 variables laid out in opposite order in sepset and clique belief (hash-seed / name dependent)", ["C03", "C04"], False),
+    "C10-E": ("C10", "BaseEstimator keeps the caller's state_names dict and writes undeclared variables into it", "a partial state_names dict handed to two scorers, the second on data showing fewer states", ["C10"], False),
+    "C10-F": ("C10", "LRU cache recycles the evicted link without storing the new value", "more distinct (variable, parents) queries than max_size, then a repeat query", ["C10", "C11"], False),
+    "C11-E": ("C11", "same slip as C10-F reached through the searches", "ScoreCache with a small max_size as scoring method", ["C11", "C10"], False),
+    "C11-F": ("C11", "hill climbing asks the ScoreCache wrapper (uniform) for the structure prior ratio", "scoring_method='bds' with the default cache", ["C11"], False),
+    "C12-E": ("C12", "level counter incremented before the max_cond_vars exit test", "max_cond_vars equal to the largest degree of the true skeleton", ["C12"], False),
+    "C12-F": ("C12", "orientation rule 'directed path' replaced by a two-step look-up that accepts an undirected first step", ">= 5 nodes and an unlucky node iteration order", ["C12"], False),
+    "C13-E": ("C13", "bp back-end: adjustment weights as product of single-variable beliefs", "inference_algo='bp' with >= 2 dependent adjustment variables", ["C13"], False),
+    "C13-F": ("C13", "is_valid_adjustment_set removes proper-causal edges from the user's model in place and restores them on the True path only", "a False answer on a graph with a directed X -> ... -> Y path, then any later use", ["C13"], False),
     "C17-B": ("C17", "initialize_initial_state pairs parent cardinalities with reversed parent names", "a CPD given for one slice with >= 2 same-slice parents of different cardinalities", ["C17"], True),
 }
 
